@@ -16,6 +16,9 @@ PrQuant == {[form |-> "pr_quant", b |-> b, runs |-> r, path |-> p] : b \in Bound
 PrQual == {[form |-> "pr_qual", b |-> b, runs |-> r, path |-> p, cmp |-> c, prob |-> q] :
             b \in Bounds, r \in {0}, p \in Paths, c \in {"ge", "le"}, q \in {"0.5", "0.25", "0.001", "1"}}
 PrCmp == {[form |-> "pr_cmp", b |-> b1, b2 |-> b2, path |-> p1, path2 |-> p2] : b1 \in Bounds, b2 \in Bounds, p1 \in Paths, p2 \in Paths}
+(* a probability comparison has no place for a run count: with one the query is refused (it is not read with the count dropped) *)
+PrCmpRuns == {[form |-> "pr_cmp", b |-> "time", b2 |-> "time", path |-> p1, path2 |-> p2, runs |-> r1, runs2 |-> r2] :
+                p1 \in Paths, p2 \in Paths, r1 \in Runs, r2 \in Runs} \ {q \in [form : {"pr_cmp"}, b : {"time"}, b2 : {"time"}, path : Paths, path2 : Paths, runs : Runs, runs2 : Runs] : q.runs = 0 /\ q.runs2 = 0}
 Exp == {[form |-> "exp", b |-> b, runs |-> r, agg |-> a] : b \in Bounds, r \in Runs, a \in {"min", "max"}}
 Sim == {[form |-> f, b |-> b, runs |-> r, n |-> n] : f \in {"sim", "sim_reach", "sim_reach_n"}, b \in Bounds, r \in Runs, n \in 1..2}
 Control == {[form |-> f, sub |-> s] : f \in {"control_AG", "control_AF", "control_until", "ef_control", "po_control"}, s \in Sub}
@@ -68,9 +71,10 @@ ChildKind(q) ==
    builder knows them only as game objectives) and a probability bound written without a decimal point (the grammar asks for a floating literal) *)
 Valid(q) == /\ q.form \notin {"until", "wuntil", "buchi"}
             /\ ~(q.form = "pr_qual" /\ q.prob = "1")
+            /\ ~(q.form = "pr_cmp" /\ "runs" \in DOMAIN q)
 WithKinds(S) == {[qq |-> q, root |-> RootKind(q), child |-> ChildKind(q), valid |-> Valid(q)] : q \in S}
 
-All == Symbolic \cup SupInf \cup PrQuant \cup PrQual \cup PrCmp \cup Exp \cup Sim \cup Control \cup Learn \cup Strat \cup Mitl
+All == Symbolic \cup SupInf \cup PrQuant \cup PrQual \cup PrCmp \cup PrCmpRuns \cup Exp \cup Sim \cup Control \cup Learn \cup Strat \cup Mitl
 ASSUME ndJsonSerialize(IOEnv.OUTF, SetToSeq(All))
 ASSUME ndJsonSerialize(IOEnv.OUTF \o ".kinds", SetToSeq(WithKinds(All)))
 VARIABLE dummy
